@@ -105,6 +105,19 @@ CHECKS = {
               '(leftmost, non-overlapping) validated by the correspondence runs; the run rule beyond length 15 is '
               'validated (random runs up to 12 per helix, strings up to ~45), not proved.'),
         technique='Coq proof (loop/indexing refinement by induction; dot-mask invariant of the rewriting; bounded exhaustive kernel evaluation for the run rule) + tables regenerated from source + in-Coq correspondence'),
+    'C09': dict(
+        category='proof',
+        text=('Coq theorems over exact rationals about a model of do_average_bead / DoAverageBead: the position is '
+              'sum(w p)/sum(w) over the positioned constituents with weight mapping_weight x centre weight; inside the '
+              'bounding box for non-negative weights; equivariant under EVERY affine map (hence every rigid motion); '
+              'constituents without coordinates never contribute; NaN exactly when |sum w| < 1e-7; invariant under '
+              'reordering constituents with their weights. No real-number axioms (Q, lra/nra/field). Tie: the real '
+              'DoAverageBead (one instance over several molecules/force fields) compared with the exact model within '
+              '1e-9, the clauses evaluated on the real numbers, and metamorphic before/after-motion pairs.'),
+        design_ref='DESIGN.md section 5, C09',
+        note=('Trusted: Coq kernel + vm_compute; floating point (numpy.average, sum) validated inside a 1e-9 band, not '
+              'proved; weight sums within 0.1% of the 1e-7 threshold excluded.'),
+        technique='Coq proof over Q (induction on the constituent list, lra/nra/field) + in-Coq correspondence within a stated band + metamorphic pairs'),
 }
 NOT_APPLICABLE = {}
 PENDING_REASON = 'not yet claimed: model and proofs for this property are still being built (see DESIGN.md staging); no check is registered so nothing is asserted'
